@@ -54,6 +54,9 @@ fn kf(pos: f32, a: Option<f32>, k: Option<i32>, d: Option<f64>, e: Option<u8>) -
 /// 17 shapes; `variant` 0 uses Linear/custom polynomial easings, 1 uses built-in Bezier easings
 /// (Ease / InOutCubic / OutBack) in the same places.
 pub fn pool(variant: u8) -> Vec<(&'static str, Vec<TlSpec>)> {
+    if variant == 2 {
+        return nondyadic_pool();
+    }
     let e = |i: u8| -> u8 {
         if variant == 0 {
             i
@@ -681,6 +684,134 @@ fn c06_nonrepresentable(cfg: &Config, rank0: u64, acc: &mut Acc) {
 }
 
 
+/// C06 companion with very small steps (1 ns .. 1 us, i.e. around and below f32::EPSILON seconds): n such
+/// steps against one advance of their sum, on a timeline short enough (1.25 x the total) that the progress is
+/// most of the value range. Each step is within 1e-7 relative of a whole number of nanoseconds, so the two
+/// clocks agree to 1 ns and the values to 1000 x 1 ns / cycle plus evaluation rounding.
+fn c06_tiny_steps(acc: &mut Acc) {
+    for (ci, &(s_ns, n)) in [(1u32, 4096u32), (10, 4096), (50, 2048), (100, 4096), (119, 1024), (120, 1024), (1000, 512)].iter().enumerate() {
+        let s = (s_ns as f64 * 1e-9) as f32;
+        let total_ns = s_ns as f64 * n as f64;
+        let cycle = (1.25 * total_ns * 1e-9) as f32;
+        let spec = TlSpec {
+            kfs: vec![Kf { pos: 0.0, a: Some(0.0), k: Some(0), d: None, easing: None }, Kf { pos: 1.0, a: Some(1000.0), k: Some(100_000), d: None, easing: None }],
+            default_easing: 0,
+            timing: Timing::new(cycle, 0.0, Rep::None, false),
+        };
+        let build = || StateAnimatorBuilder::<S4, PTimeline>::new().from_state(S4::X).from_values(P::default()).on(S4::X, MergedTimeline::of([spec.build()])).build();
+        for variant in 0..3 {
+            // 0: n tiny steps; 1: tiny steps with a zero-length advance after each; 2: half of them, a state
+            // round trip through an un-animated state, the other half
+            let mut a = build();
+            for i in 0..n {
+                a.advance(s);
+                if variant == 1 {
+                    a.advance(0.0);
+                }
+                if variant == 2 && i == n / 2 {
+                    a.set_state(&S4::U1);
+                    a.set_state(&S4::X);
+                }
+            }
+            let mut b = build();
+            b.advance((total_ns * 1e-9) as f32);
+            acc.histories += 2;
+            acc.ops += n as u64 + 1;
+            acc.checks += 1;
+            acc.nontrivial += 1;
+            let (va, vb) = (a.current_values().clone(), b.current_values().clone());
+            let tol = 1000.0 / (1.25 * total_ns) + 0.01;
+            let mut bad = (va.a - vb.a).abs() as f64 > tol || ((va.k - vb.k).abs() as f64) > 100.0 * tol + 1.0 || a.is_ended() != b.is_ended();
+            // past the end both must be over
+            for _ in 0..(n / 2) {
+                a.advance(s);
+            }
+            b.advance((total_ns * 0.5e-9) as f32);
+            bad |= !a.is_ended() || !b.is_ended() || a.current_values().a != 1000.0 || b.current_values().a != 1000.0;
+            if bad {
+                acc.sink.add("schedule-dependence:tiny-steps", (1u64 << 50) | (ci as u64) << 8 | variant, || {
+                    (
+                        format!("{n} x advance({s:e}) (variant {variant}) gives a={} k={}, one advance of the sum gives a={} k={} on a {cycle:e} s timeline (tolerance {tol:.3}); after 50% more time: ended {} / {}, a = {} / {}", va.a, va.k, vb.a, vb.k, a.is_ended(), b.is_ended(), a.current_values().a, b.current_values().a),
+                        json!({"step_seconds": s, "steps": n, "cycle_seconds": cycle, "variant": variant, "timeline": spec.to_json()}),
+                    )
+                });
+            }
+        }
+    }
+}
+
+/// Shapes with timings that are NOT exactly representable and a delay (variant 2 of `pool`): used by the C04
+/// companion only, whose clause (set_state never changes current_values) needs no reference model.
+fn nondyadic_pool() -> Vec<(&'static str, Vec<TlSpec>)> {
+    let t = Timing::new;
+    let lin = |a0: f32, a1: f32, k0: i32, k1: i32, tm: Timing| TlSpec { kfs: vec![kf(0.0, Some(a0), Some(k0), None, None), kf(1.0, Some(a1), Some(k1), None, None)], default_easing: 0, timing: tm };
+    vec![
+        ("nd-delay-3.5-cycle-0.1", vec![lin(0.0, 1000.0, 0, 7, t(0.1, 3.5, Rep::None, false))]),
+        ("nd-delay-3.3-cycle-0.1-times-1", vec![lin(5.0, 995.0, -3, 3, t(0.1, 3.3, Rep::Times(1), false))]),
+        ("nd-delay-3.9-cycle-0.2-reverse", vec![lin(-1000.0, 1000.0, 0, 1000, t(0.2, 3.9, Rep::None, true))]),
+        ("nd-delay-0.7-cycle-0.3-times-2", vec![lin(0.3, 77.7, 1, 2, t(0.3, 0.7, Rep::Times(2), false))]),
+        ("nd-merged-0.1+0.7", vec![lin(0.0, 1000.0, 0, 0, t(0.1, 3.5, Rep::None, false)), TlSpec { kfs: vec![kf(0.0, None, Some(10), None, None), kf(1.0, None, Some(90), None, None)], default_easing: 0, timing: t(0.7, 0.1, Rep::Times(1), false) }]),
+        ("finite", vec![lin(-64.0, 96.0, -100, 250, t(1.0, 0.0, Rep::None, false))]),
+    ]
+}
+
+/// C04 companion: non-dyadic delayed shapes, advance amounts that land exactly on (and one ulp around) the
+/// reported total duration - where `is_ended` (clock >= delay + cycle x n, rounded once) and the time map
+/// (clock - delay > cycle x n) may disagree by an ulp - then every history of set_state / advance up to
+/// depth 5. Oracle: the C04 clause only (bit-exact, model-free).
+fn c04_nondyadic(thorough: bool, acc: &mut Acc) {
+    let np = nondyadic_pool().len();
+    let mut cfgs: Vec<(usize, usize)> = vec![];
+    for i in 0..np - 1 {
+        cfgs.push((i, np - 1));
+        cfgs.push((np - 1, i));
+    }
+    cfgs.push((0, 3));
+    let depth = if thorough { 6 } else { 5 };
+    let r = par_fold(
+        cfgs.len(),
+        Acc::default,
+        |ci, acc| {
+            let (xi, yi) = cfgs[ci];
+            let cfg = Config::with_third(xi, yi, 2, None);
+            acc.configs += 1;
+            let mut advs: Vec<f32> = vec![0.25];
+            for m in &cfg.merged {
+                let d = m.duration();
+                if d.is_finite() {
+                    advs.extend([d, step_ulps(d, -1), step_ulps(d, 1)]);
+                }
+            }
+            advs.sort_by(|a, b| a.total_cmp(b));
+            advs.dedup();
+            let mut ops: Vec<Op> = advs.iter().map(|&d| Op::Adv(d)).collect();
+            ops.extend([Op::Set(S4::X), Op::Set(S4::Y), Op::Set(S4::U1), Op::Set(S4::U2)]);
+            // all histories of length 1..=depth that end in a set_state (the clause is about set_state)
+            let mut h: Vec<usize> = vec![];
+            fn rec(cfg: &Config, ops: &[Op], h: &mut Vec<usize>, depth: usize, rank0: u64, acc: &mut Acc) {
+                if !h.is_empty() {
+                    if let Op::Set(_) = ops[*h.last().unwrap()] {
+                        let hist: Vec<Op> = h.iter().map(|&i| ops[i]).collect();
+                        let code = h.iter().fold(0u64, |c, &i| c * 16 + i as u64 + 1);
+                        check_history(cfg, S4::X, &hist, Prop::C04, rank0 | (h.len() as u64) << 40 | code, acc);
+                    }
+                }
+                if h.len() == depth {
+                    return;
+                }
+                for i in 0..ops.len() {
+                    h.push(i);
+                    rec(cfg, ops, h, depth, rank0, acc);
+                    h.pop();
+                }
+            }
+            rec(&cfg, &ops, &mut h, depth, (3u64 << 60) | (ci as u64) << 52, acc);
+        },
+        merge,
+    );
+    merge(acc, r);
+}
+
 /// C07 companion with non-dyadic timings and steps: the statement as worded against the *reported*
 /// duration: is_ended <=> time in state (as f32 seconds) >= Timeline::duration(); sticky; values
 /// bit-constant once ended.
@@ -1011,6 +1142,12 @@ pub fn run(run: Run, prop: Prop) -> ! {
     let mut acc = acc;
     if prop == Prop::C07 {
         c07_nondyadic(&mut acc);
+    }
+    if prop == Prop::C06 {
+        c06_tiny_steps(&mut acc);
+    }
+    if prop == Prop::C04 {
+        c04_nondyadic(thorough, &mut acc);
     }
     let id = format!("{prop:?}");
     let mut cov = Map::new();
